@@ -166,7 +166,8 @@ pub fn run_scase(c: &SCase) -> SObs {
         uninstall_picker();
         return obs;
     };
-    let mut dslots: Vec<Option<ActionKey>> = (0..c.ndslots.max(1)).map(|_| None).collect();
+    *shared.dkeys.lock().unwrap() = (0..c.ndslots.max(1)).map(|_| None).collect();
+    let nds = c.ndslots.max(1) as usize;
     for (i, cmd) in c.cmds.iter().enumerate() {
         let eid = cmd_eid(i);
         let mut o = CmdObs {
@@ -206,8 +207,7 @@ pub fn run_scase(c: &SCase) -> SObs {
                                 let r = w.sched.schedule_keyed_event($d, Node::on_event, m, &addr);
                                 o.sched = Some(sched_code(&r));
                                 if let Ok(k) = r {
-                                    let n = dslots.len();
-                                    dslots[*s as usize % n] = Some(k);
+                                    shared.dkeys.lock().unwrap()[*s as usize % nds] = Some(k);
                                 }
                             }
                             (Some(p), None) => {
@@ -229,8 +229,7 @@ pub fn run_scase(c: &SCase) -> SObs {
                                 );
                                 o.sched = Some(sched_code(&r));
                                 if let Ok(k) = r {
-                                    let n = dslots.len();
-                                    dslots[*s as usize % n] = Some(k);
+                                    shared.dkeys.lock().unwrap()[*s as usize % nds] = Some(k);
                                 }
                             }
                         }
@@ -272,25 +271,24 @@ pub fn run_scase(c: &SCase) -> SObs {
                 };
                 o.sched = Some(sched_code(&r));
                 if let (Ok(()), Some(k), Some(sl)) = (r, key, keyed) {
-                    let n = dslots.len();
-                    dslots[*sl as usize % n] = Some(k);
+                    shared.dkeys.lock().unwrap()[*sl as usize % nds] = Some(k);
                 }
             }
             Cmd::Cancel { slot } => {
-                let n = dslots.len();
-                if let Some(k) = dslots[*slot as usize % n].take() {
+                let k = shared.dkeys.lock().unwrap()[*slot as usize % nds].take();
+                if let Some(k) = k {
                     k.cancel();
                 }
             }
             Cmd::AutoDrop { slot } => {
-                let n = dslots.len();
-                if let Some(k) = dslots[*slot as usize % n].take() {
+                let k = shared.dkeys.lock().unwrap()[*slot as usize % nds].take();
+                if let Some(k) = k {
                     drop(k.into_auto());
                 }
             }
             Cmd::CloneCancel { slot } => {
-                let n = dslots.len();
-                if let Some(k) = dslots[*slot as usize % n].clone() {
+                let k = shared.dkeys.lock().unwrap()[*slot as usize % nds].clone();
+                if let Some(k) = k {
                     k.cancel();
                 }
             }
